@@ -226,6 +226,9 @@ int main(int argc, char **argv) {
   unsigned long long first = argc > 2 ? strtoull(argv[2], 0, 10) : 1;
   int count = argc > 3 ? atoi(argv[3]) : 100, steps = argc > 4 ? atoi(argv[4]) : 12;
   if (dn == "tvpi") crab::domains::crab_domain_params_man::get().coefficients().push_back(2);
+  // domain parameters: PARAMS="zones.close_bounds_inline=true,oct.chrome_dijkstra=false,..."
+  if (const char *ps = getenv("PARAMS")) { std::string p(ps); size_t i = 0; while (i < p.size()) { size_t j = p.find(',', i); if (j == std::string::npos) j = p.size(); std::string kv = p.substr(i, j - i); size_t e = kv.find('=');
+      if (e != std::string::npos) crab::domains::crab_domain_params_man::get().set_param(kv.substr(0, e), kv.substr(e + 1)); i = j + 1; } }
   if (dn.size() > 2 && dn.substr(dn.size() - 2) == "+b") { g_use_bool = true; dn = dn.substr(0, dn.size() - 2); }
 #define D(n, T) if (dn == n) return drive<T>(n, first, count, steps) ? 1 : 0;
   D("interval", z_interval_domain_t) D("constant", z_constant_domain_t) D("ric", z_ric_domain_t) D("dbm", z_dbm_domain_t)
